@@ -1474,7 +1474,15 @@ private:
       {
         // check the queues are empty each time before removing a logger to avoid
         // potential race condition of the logger* still being in the queue
+#if defined(QUILL_VERIF)
+        bool const verif_queues_empty = _check_frontend_queues_and_cached_transit_events_empty();
+        // frontend activity between the emptiness check and the removal decision; the callback
+        // may run under the logger registry lock, so a harness must only log / invalidate here
+        QUILL_VERIF_YIELD(6);
+        return verif_queues_empty;
+#else
         return _check_frontend_queues_and_cached_transit_events_empty();
+#endif
       });
 
     if (!removed_loggers.empty())
